@@ -588,6 +588,126 @@ pub fn c03_bulk(c: &sel::BulkCase) -> CheckResult {
     c03_rule(sel::check_bulk(c), true, c.values.iter().any(|v| *v != c.values[0])).map(|i| i.class("entry:get_many_from_sorted_mut"))
 }
 
+/// In-place routines called on an ArcArray handle or a borrowing CowArray: the sibling handle /
+/// the borrowed source must stay untouched, the handle itself must hold the same multiset.
+#[derive(Clone, Debug, Serialize, Deserialize, Hash)]
+pub struct SharedCase {
+    pub values: Vec<i64>,
+    /// 0 partition_mut, 1 get_from_sorted_mut, 2 get_many_from_sorted_mut, 3 quantile_mut, 4 quantile_axis_mut (2-D)
+    pub op: u8,
+    pub arg: u16,
+    /// 0 ArcArray clone, 1 CowArray borrowing a view
+    pub kind: u8,
+    pub cols: usize,
+    pub pivots: Pivots,
+}
+
+pub fn check_shared(c: &SharedCase) -> CheckResult {
+    use ndarray::{Array1, Array2, CowArray};
+    use ndarray_stats::{Quantile1dExt, Sort1dExt};
+    let n = c.values.len();
+    if n == 0 {
+        return Ok(Info::discarded());
+    }
+    let pos = (c.arg as usize * n) >> 16;
+    let q = N64::unchecked_new((c.arg as f64) / 65535.0);
+    let original = c.values.clone();
+    c.pivots.install();
+    let outcome: Result<(Vec<i64>, Vec<i64>), String> = catch(|| {
+        if c.op % 5 == 4 {
+            let cols = c.cols.max(1).min(n);
+            let rows = n / cols;
+            let m = Array2::from_shape_vec((rows, cols), original[..rows * cols].to_vec()).unwrap();
+            if c.kind % 2 == 0 {
+                let a = m.into_shared();
+                let mut b = a.clone();
+                let _ = b.quantile_axis_mut(Axis(1), q, &Nearest);
+                (a.iter().cloned().collect(), b.iter().cloned().collect())
+            } else {
+                let mut h = CowArray::from(m.view());
+                let _ = h.quantile_axis_mut(Axis(1), q, &Nearest);
+                (m.iter().cloned().collect(), h.iter().cloned().collect())
+            }
+        } else {
+            let src = Array1::from(original.clone());
+            let run = |h: &mut dyn FnMut() -> ()| h();
+            let _ = run;
+            if c.kind % 2 == 0 {
+                let a = src.into_shared();
+                let mut b = a.clone();
+                match c.op % 5 {
+                    0 => {
+                        b.partition_mut(pos);
+                    }
+                    1 => {
+                        b.get_from_sorted_mut(pos);
+                    }
+                    2 => {
+                        b.get_many_from_sorted_mut(&Array1::from(vec![pos, n - 1 - pos, pos]));
+                    }
+                    _ => {
+                        let _ = b.quantile_mut(q, &Nearest);
+                    }
+                }
+                (a.iter().cloned().collect(), b.iter().cloned().collect())
+            } else {
+                let mut h = CowArray::from(src.view());
+                match c.op % 5 {
+                    0 => {
+                        h.partition_mut(pos);
+                    }
+                    1 => {
+                        h.get_from_sorted_mut(pos);
+                    }
+                    2 => {
+                        h.get_many_from_sorted_mut(&Array1::from(vec![pos, n - 1 - pos, pos]));
+                    }
+                    _ => {
+                        let _ = h.quantile_mut(q, &Nearest);
+                    }
+                }
+                (src.iter().cloned().collect(), h.iter().cloned().collect())
+            }
+        }
+    });
+    Pivots::uninstall();
+    let (other, handle) = match outcome {
+        Ok(x) => x,
+        Err(p) => fail!("panic", "an in-place routine (op {}) panicked on a {} handle: {}", c.op % 5, if c.kind % 2 == 0 { "shared ArcArray" } else { "borrowing CowArray" }, p),
+    };
+    let used = other.len();
+    ensure!(
+        other[..] == original[..used],
+        "guard",
+        "an in-place routine (op {}) called on one {} modified the {}: before {:?}, after {:?}",
+        c.op % 5,
+        if c.kind % 2 == 0 { "ArcArray handle" } else { "borrowing CowArray" },
+        if c.kind % 2 == 0 { "other handle sharing the buffer" } else { "borrowed source array" },
+        &original[..used],
+        other
+    );
+    let mut a = handle.clone();
+    a.sort_unstable();
+    let mut b = original[..used].to_vec();
+    b.sort_unstable();
+    if c.op % 5 != 4 {
+        ensure!(a == b, "multiset", "the handle the routine was called on no longer holds the same multiset: {:?} vs {:?}", handle, &original[..used]);
+    }
+    Ok(Info::new(n >= 2 && original.iter().any(|v| *v != original[0])).class(if c.kind % 2 == 0 { "container:ArcArray(shared)" } else { "container:CowArray(borrowed)" }).class("entry:shared-container"))
+}
+
+fn shared_strategy() -> impl Strategy<Value = SharedCase> {
+    (
+        prop_oneof![proptest::collection::vec(0i64..5, 1..40), proptest::collection::vec(-1000i64..1000, 1..40)],
+        0u8..5,
+        any::<u16>(),
+        0u8..2,
+        1usize..6,
+        prop_oneof![3 => Just(Pivots::Script(PivotScript { prefix: vec![], tail: Tail::First })), 1 => Just(Pivots::Script(PivotScript { prefix: vec![], tail: Tail::Last })), 3 => pivots_strategy()],
+    )
+        .prop_map(|(values, op, arg, kind, cols, pivots)| SharedCase { values, op, arg, kind, cols, pivots })
+}
+
 pub fn run_c14(ctx: &Ctx) {
     let t = ctx.tier();
     ctx.run_proptest("skip", t.pick(40_000, 1_000_000), skip_strategy(t.pick(40, 200)), &check_skip);
@@ -602,6 +722,7 @@ pub fn run_c03(ctx: &Ctx) {
     ctx.run_proptest("partition", t.pick(10_000, 200_000), sel::part_strategy(t.pick(40, 200)), &c03_partition);
     ctx.run_proptest("select", t.pick(10_000, 200_000), sel::sel_strategy(t.pick(40, 200), 0), &c03_select);
     ctx.run_proptest("bulk", t.pick(10_000, 200_000), sel::bulk_strategy(t.pick(40, 200), 0), &c03_bulk);
+    ctx.run_proptest("shared", t.pick(15_000, 300_000), shared_strategy(), &check_shared);
 }
 
 pub fn replayers_c14() -> Vec<(&'static str, ReplayFn)> {
@@ -617,5 +738,6 @@ pub fn replayers_c03() -> Vec<(&'static str, ReplayFn)> {
         ("partition", |v| replay_with::<sel::PartCase>(v, &c03_partition)),
         ("select", |v| replay_with::<sel::SelCase>(v, &c03_select)),
         ("bulk", |v| replay_with::<sel::BulkCase>(v, &c03_bulk)),
+        ("shared", |v| replay_with::<SharedCase>(v, &check_shared)),
     ]
 }
